@@ -6,51 +6,7 @@ From BiomV Require Import Proofs.FilterProofs Proofs.ReorderProofs Proofs.MergeP
   Proofs.PartitionProofs Proofs.SubsampleProofs Proofs.TransformProofs.
 Import ListNotations.
 
-(* ---- unconditional coherence of the reordering operations: whatever the arguments, a returned
-   table is coherent ---- *)
-Lemma errcheck_NoDup t t' : errcheck t = ROk t' -> t' = t /\ NoDup (oids t) /\ NoDup (sids t).
-Proof.
-  unfold errcheck. destruct (zdup (oids t) || zdup (sids t)) eqn:E; intros H; [discriminate|].
-  inversion H; subst. apply orb_false_iff in E. destruct E as [A B].
-  repeat split; apply zdup_false_NoDup; assumption.
-Qed.
-
-Lemma sort_order_wf order a t t' : wf t -> sort_order order a t = ROk t' -> wf t'.
-Proof.
-  intros W. unfold sort_order. destruct (lookup_all order (ids a t)) as [fancy|] eqn:L; [|discriminate].
-  intros H. apply errcheck_NoDup in H. destruct H as (E & No & Ns). subst t'.
-  apply wf_reorder; [exact W|exact L|]. destruct a; simpl in *; assumption.
-Qed.
-
-Lemma update_ids_wf m a strict inplace t t' : wf t -> update_ids m a strict inplace t = ROk t' -> wf t'.
-Proof.
-  intros W. unfold update_ids, new_ids.
-  destruct (strict && negb (forallb (mapped m) (ids a t))); [discriminate|].
-  rewrite copy_id.
-  assert (G : errcheck (set_ids a (map (rename m) (ids a t)) t) = ROk t' -> wf t').
-  { intros H. apply errcheck_NoDup in H. destruct H as (E & No & Ns). subst t'.
-    apply wf_set_ids; [exact W| |apply map_length]. destruct a; simpl in *; assumption. }
-  destruct inplace; [|exact G]. destruct (zdup (map (rename m) (ids a t))); [discriminate|exact G].
-Qed.
-
-Lemma align_to_wf o m t t' : wf t -> align_to o m t = ROk t' -> wf t'.
-Proof.
-  intros W. unfold align_to, rbind. destruct m.
-  - destruct (same_set (sids t) (sids o)); [|discriminate]. apply sort_order_wf. exact W.
-  - destruct (same_set (oids t) (oids o)); [|discriminate]. apply sort_order_wf. exact W.
-  - destruct (same_set (oids t) (oids o) && same_set (sids t) (sids o)); [|discriminate].
-    destruct (sort_order (oids o) Obs t) as [t1|] eqn:E1; [|discriminate].
-    apply sort_order_wf. eapply sort_order_wf; eassumption.
-  - destruct (same_set (oids t) (oids o) || same_set (sids t) (sids o)); [|discriminate].
-    destruct (same_set (sids t) (sids o)).
-    + destruct (sort_order (sids o) Samp t) as [t1|] eqn:E1; [|discriminate].
-      assert (W1 : wf t1) by (eapply sort_order_wf; eassumption).
-      destruct (same_set (oids t) (oids o)); [apply sort_order_wf; exact W1|].
-      intros H. inversion H; subst. exact W1.
-    + destruct (same_set (oids t) (oids o)); [apply sort_order_wf; exact W|].
-      intros H. inversion H; subst. exact W.
-  - discriminate.
-Qed.
+(* sort_order_wf, update_ids_wf, align_to_wf, copy_id: Proofs/ReorderProofs.v *)
 
 (* ---- the locally defined steps ---- *)
 Lemma set_md_wf sel o s t t' : wf t -> set_md sel o s t = ROk t' -> wf t'.
@@ -100,7 +56,7 @@ Proof.
     rewrite E. apply wf_filter_table. apply wf_filter_table. exact W.
   - apply of_result_wf; [exact W|]. intros t' H. eapply sort_order_wf; eassumption.
   - simpl. apply wf_transpose. exact W.
-  - simpl. rewrite copy_id. exact W.
+  - cbn [fst]. apply wf_copy. exact W.
   - apply of_result_wf; [exact W|]. intros t' H. eapply update_ids_wf; eassumption.
   - apply of_result_wf; [exact W|]. intros t' H. eapply set_md_wf; eassumption.
   - apply of_result_wf; [exact W|]. intros t' H. eapply set_mat_wf; eassumption.
@@ -109,7 +65,7 @@ Proof.
     apply of_result_wf; [exact W|]. intros t' H. eapply concat_wf; [|exact H].
     constructor; [exact W|apply forallb_wfb; exact E].
   - destruct (wfb other) eqn:E; [|exact W].
-    apply of_result_wf; [exact W|]. intros t' H. eapply align_to_wf; eassumption.
+    apply of_result_wf; [exact W|]. intros t' H. eapply align_to_wf; [exact W|apply wfb_wf; exact E|exact H].
   - destruct (forallb wfb others) eqn:E; [|exact W].
     apply of_result_wf; [exact W|]. intros t' H.
     eapply merge_dispatch_wf; [exact W|apply forallb_wfb; exact E|exact H].
